@@ -14,17 +14,18 @@ Proof. exact py_check_crc_spec. Qed.
 Print Assumptions C07_check_is_bitwise_crc.
 
 (* GATE, RTU: for EVERY receiver state (any buffer, any header content), every chunk and both
-   decoder tables: each message handed to the callback is justified by a prefix of the
-   buffered bytes that is exactly the specified ADU of that message (unit, PDU, bitwise
-   CRC-16 low byte first) — what the reference receiver accepts.  Hence no corruption,
-   truncation or extension of a frame is delivered unless the corrupted bytes themselves
-   contain a frame with a matching CRC. *)
+   decoder tables, for the whole drain loop of a call: each message handed to the callback is
+   justified by a span of the buffered bytes that is exactly the specified ADU of that message
+   (unit, PDU, bitwise CRC-16 low byte first) — what the reference receiver accepts.  In
+   particular an intact frame in front never opens the gate for a corrupted frame behind it in
+   the same read; no corruption, truncation or extension of a frame is delivered unless the
+   corrupted bytes themselves contain a frame with a matching CRC. *)
 Theorem C07_gate_rtu : forall cfg st chunk st' ds x,
   known_rules (cf_rules cfg) -> wfb (r_buf st ++ chunk) = true ->
   rtu_recv cfg st chunk = (st', ds, x) ->
   forall pdu uid, In (pdu, uid) ds ->
-    exists u rest, r_buf st ++ chunk = spec_adu_rtu u pdu ++ rest /\ uid = Z.of_N u /\
-                   crc_ok (spec_adu_rtu u pdu) = true /\ spec_rx_rtu (spec_adu_rtu u pdu) = Some (pdu, u).
+    exists u pre rest, r_buf st ++ chunk = pre ++ spec_adu_rtu u pdu ++ rest /\ uid = Z.of_N u /\
+                       crc_ok (spec_adu_rtu u pdu) = true /\ spec_rx_rtu (spec_adu_rtu u pdu) = Some (pdu, u).
 Proof. exact rtu_gate. Qed.
 Print Assumptions C07_gate_rtu.
 
